@@ -29,6 +29,7 @@ class Continue(Exception):
 
 MAX_DEPTH = 60
 LOOPS = {}          # (qualname, ordinal) -> loop contract (see pyvc.loops)
+DEFAULT_BOUND = None   # bound for loops that have neither a contract nor an entry in BOUNDS (None: unsupported)
 BOUNDS = {}         # (qualname, ordinal) -> max iterations explored when no contract applies (bounded stand-in)
 
 
